@@ -180,6 +180,17 @@ class PoolSum(sp.Expr):
             for combi in itertools.product(*indices.values())
         ])
 
+    def _eval_subs(self, old, new, **hints):
+        if old in {s for s, _ in self.indices}:
+            return self  # bound summation index
+        return None
+
+    def _xreplace(self, rule):
+        bound = {s for s, _ in self.indices}
+        if any(s in rule for s in bound):
+            rule = {k: v for k, v in rule.items() if k not in bound}
+        return super()._xreplace(rule)
+
     def _latex(self, printer: LatexPrinter, *args) -> str:
         indices = dict(self.indices)
         sum_symbols: list[str] = []
